@@ -39,7 +39,9 @@ def register(R):
     from pyvc.loader import Repo, ClassInfo
     repo = Repo()
     for cn, fs in FIELDS.items():
-        R.fields_of(cn, **fs)
+        tbl = R.fields.setdefault(cn, {})
+        for fk, fv in fs.items():
+            tbl.setdefault(fk, fv)       # never override a tag declared by the property specs
     R.library("pprint.pformat", signature="obj", returns="str", pure=True)
     R.fields_of("MismatchError", mismatch="AMismatch", matcher="AMatcher")
     R.contract("testtools.matchers._impl:MismatchError.__str__", props=["C07"], pure=True, returns="str", note="totality (both verbose settings)")
